@@ -1,6 +1,7 @@
 import WhVerif.Model.C14
 import WhVerif.Spec.C14
 import WhVerif.Lemmas.C14
+import WhVerif.Lemmas.C14Text
 /-!
 # C14 — split distributes every read to exactly the outputs its haplotype entry selects
 
@@ -236,5 +237,188 @@ example : (⟨[("a", 1), ("b", 2)], []⟩ : Table).WF (o2 false false) := by
   intro p hp
   simp at hp
   rcases hp with rfl | rfl <;> simp [o2]
+
+/-! ## text level: list file → table → outputs, command line, histogram file -/
+
+/-- **list_text_roundtrip** (file → rows seam): a list file written one row per line, tab-separated, with fields free
+of tabs / newlines and no white space at the ends of a line, is read by `line.strip().split("\t")`, the header test on
+the raw first line and the column-count test of `check_haplotag_list_information` exactly as the rows: the result is
+`parseLine` applied to every row after the optional header, with the parser chosen by the first row's width. -/
+theorem list_text_roundtrip (o : Opts) (first : List (List Char)) (rest : List (List (List Char)))
+    (h : ∀ r ∈ first :: rest, RowOK r) :
+    parseText o (renderText (first :: rest)) =
+      if first.length < 2 then .error .valueError
+      else if o.onlyLargest && !fourColOf (strRow first) then .error .valueError
+      else (if rawHeader (renderLine first) then rest else first :: rest).mapM
+        (fun r => parseLine (fourColOf (strRow first)) o.ploidy (strRow r)) :=
+  parseText_render o first rest h
+
+example : RowOK ["r1".toList, "H1".toList] :=
+  ⟨by simp, by decide, by decide, by decide, by decide⟩
+
+/-- **table_realises_list**: for a list that names no read twice, the option table computed from the table that
+`process_haplotag_list_file` builds (dict with default 0, `known_reads`, largest-block restriction) equals the option
+table read directly off the lines (`prescribedByList`: the line of that name, its haplotype, whether its
+(chromosome, phase set) block is a selected one). -/
+theorem table_realises_list (o : Opts) (lines : List Line) (t : Table) (h : buildTable o lines = .ok t)
+    (hn : (lines.map (·.name)).Nodup) (r : Read) : prescribed o t r = prescribedByList o lines r :=
+  prescribed_eq_byList o lines t h hn r
+
+/-- the `assert total_reads == len(known_reads)` of `--discard-unknown-reads` is exactly the uniqueness hypothesis:
+an accepted list names no read twice (and is not empty) -/
+theorem discard_ok_names_unique (o : Opts) (lines : List Line) (t : Table) (h : buildTable o lines = .ok t)
+    (hd : o.discardUnknown = true) : (lines.map (·.name)).Nodup ∧ lines ≠ [] :=
+  (buildTable_ok o lines t h).2 hd
+
+/-- **largest_block_selected**: `select_reads_in_largest_phased_blocks` selects, for every chromosome with a tagged
+line, exactly one block keyed by (chromosome, phase set), and that block has the maximal number of tagged lines among
+the phase sets of its chromosome (the same phase-set id on another chromosome is another block). -/
+theorem largest_block_selected (tagged : List Line) :
+    (∀ b ∈ selectedBlocks tagged, IsLargest tagged b) ∧
+    (∀ b ∈ selectedBlocks tagged, ∀ b' ∈ selectedBlocks tagged, b.1 = b'.1 → b = b') ∧
+    (∀ l ∈ tagged, ∃ b ∈ selectedBlocks tagged, b.1 = l.chrom) :=
+  ⟨selected_isLargest tagged, fun b hb b' hb' => selected_unique tagged b b' hb hb', selected_exists tagged⟩
+
+/-- **split_text_end_to_end**: from the command line, the text of the list file and the reads to the outputs. If
+`run_split` accepts the input and the list names no read twice (which `--discard-unknown-reads` enforces), every
+requested output receives — in input order, each once — exactly the reads the option table *on the list lines*
+prescribes. -/
+theorem split_text_end_to_end (a : OutArgs) (f : Flags) (text : List Char) (reads : List Read) (o : Opts) (p : Pass)
+    (lines : List Line) (hrun : runSplit a f text reads = .ok (o, p)) (hl : parseText o text = .ok lines)
+    (hn : (lines.map (·.name)).Nodup ∨ o.discardUnknown = true) (k : Nat) (hk : isRequested o k = true) :
+    written p k = ((reads.zipIdx 0).filter (fun q => decide (k ∈ prescribedByList o lines q.1))).map (·.2) := by
+  unfold runSplit at hrun
+  cases ho : optsOf a f with
+  | error e => rw [ho] at hrun; cases hrun
+  | ok o' =>
+    rw [ho] at hrun
+    simp only at hrun
+    cases hp : processListText o' text with
+    | error e => rw [hp] at hrun; cases hrun
+    | ok t =>
+      rw [hp] at hrun
+      simp only [Except.ok.injEq, Prod.mk.injEq] at hrun
+      obtain ⟨rfl, rfl⟩ := hrun
+      unfold processListText at hp
+      rw [hl] at hp
+      simp only at hp
+      have hn' : (lines.map (·.name)).Nodup := by
+        rcases hn with h | h
+        · exact h
+        · exact (discard_ok_names_unique o' lines t hp h).1
+      rw [routed_exactly o' t k hk]
+      congr 1
+      apply List.filter_congr
+      intro q _
+      rw [table_realises_list o' lines t hp hn']
+
+/-- **histogram_column_sum**: the sum of column `k` over all rows of the histogram file is the number of reads written
+to output `k` — for a requested output, the untagged one or any one when `--add-untagged` is not used (F7b otherwise). -/
+theorem histogram_column_sum (o : Opts) (t : Table) (k : Nat) (hk : isRequested o k = true) (hkp : k ≤ o.ploidy)
+    (hc : o.addUntagged = false ∨ k = 0) (rs : List Read) (i : Nat) :
+    colSum (histRowsFix o (loopFix o t i rs)) k = (written (loopFix o t i rs) k).length := by
+  rw [colSum_histRowsFix o _ k hkp, routed_exactly o t k hk, List.length_map]
+  -- both sides count the reads routed to `k`
+  have h1 : ∀ (rs : List Read) (i : Nat), histTotal (loopFix o t i rs) k =
+      ((rs.zipIdx i).filter (fun q => decide (routeOf o t q.1 = some k))).length := by
+    intro rs
+    induction rs with
+    | nil => intro i; rfl
+    | cons r rs ih =>
+      intro i
+      simp only [loopFix, List.zipIdx_cons, List.filter_cons]
+      cases hro : routeOf o t r with
+      | none => simp [ih (i + 1)]
+      | some h =>
+        have : histTotal ((emit o h i r).append (loopFix o t (i + 1) rs)) k =
+            (if h == k then 1 else 0) + histTotal (loopFix o t (i + 1) rs) k := by
+          simp only [histTotal, Pass.append, emit, List.filter_append, List.length_append, List.filter_cons,
+            List.filter_nil]
+          split <;> simp
+        rw [this, ih (i + 1)]
+        by_cases e : h = k
+        · subst e; simp; omega
+        · simp [e]
+  rw [h1]
+  congr 1
+  apply List.filter_congr
+  intro q _
+  have : (routeOf o t q.1 = some k) ↔ k ∈ prescribed o t q.1 := by
+    rw [prescribed_mem o t q.1 k hk]
+    constructor
+    · intro h; exact ⟨k, h, (mem_sinks_iff o k k hc).mpr rfl⟩
+    · rintro ⟨h, h1, h2⟩; rw [h1, (mem_sinks_iff o h k hc).mp h2]
+  simp only [this]
+
+/-- **resolve_outputs_shape**: when `validate` and the head of `run_split` accept the output options, there is one
+requested-flag per output `0..ploidy`; with `--output-h1` / `--output-h2` the ploidy is 2 and the flags are the given options; with
+`-o` (n times) the ploidy is n and every haplotype output is requested; the untagged flag is `--output-untagged`. -/
+theorem resolve_outputs_shape (a : OutArgs) (p : Nat) (req : List Bool) (h : resolveOutputs a = .ok (p, req)) :
+    req.length = p + 1 ∧ req.getD 0 false = a.untagged ∧
+    ((a.h1 = true ∨ a.h2 = true) → p = 2 ∧ req = [a.untagged, a.h1, a.h2]) ∧
+    (∀ n, a.outs = some n → p = n ∧ ∀ k, 1 ≤ k → k ≤ n → req.getD k false = true) := by
+  unfold resolveOutputs at h
+  split at h
+  · cases h
+  · split at h
+    · cases h
+    · rename_i h1 h2
+      split at h
+      · rename_i h3
+        cases h
+        refine ⟨rfl, rfl, fun _ => ⟨rfl, rfl⟩, ?_⟩
+        intro n hn
+        rw [hn] at h2
+        simp at h2 h3
+        rcases h3 with h3 | h3 <;> simp [h3] at h2
+      · rename_i h3
+        cases ho : a.outs with
+        | none => rw [ho] at h; cases h
+        | some n =>
+          rw [ho] at h
+          cases h
+          refine ⟨by simp, rfl, fun hh => ?_, ?_⟩
+          · simp at h3; rcases hh with hh | hh <;> simp [hh] at h3
+          · intro m hm
+            cases hm
+            refine ⟨rfl, fun k hk1 hk2 => ?_⟩
+            obtain ⟨j, rfl⟩ : ∃ j, k = j + 1 := ⟨k - 1, by omega⟩
+            have hj : j < p := by omega
+            simp [List.getD_eq_getElem?_getD, hj]
+
+/-- `_bam_iterator`: a stored sequence decides the length; without one the length is the CIGAR's query-consuming
+length, which hard clips, deletions, skips and padding (`H`, `D`, `N`, `P`) do not change -/
+theorem bamLen_spec (seqLen : Nat) (cigar : List (Nat × Nat)) :
+    (0 < seqLen → bamLen seqLen cigar = seqLen) ∧
+    (∀ op n, consumesQuery op = false → bamLen 0 ((op, n) :: cigar) = bamLen 0 cigar) ∧
+    (∀ op n, consumesQuery op = true → bamLen 0 ((op, n) :: cigar) = n + bamLen 0 cigar) := by
+  refine ⟨fun h => by simp [bamLen, h], fun op n h => by simp [bamLen, h], fun op n h => by simp [bamLen, h]⟩
+
+
+/-! ### non-vacuity of the text-level theorems -/
+
+/-- all three outputs requested, no flags; list `a→H1, b→none`; reads `a` (listed), `c` (not listed) -/
+example : resolveOutputs ⟨true, true, none, true⟩ = .ok (2, [true, true, true]) := rfl
+example : parseText (o2 false false) "a\tH1\nb\tnone\n".toList = .ok [⟨"a", 1, "", ""⟩, ⟨"b", 0, "", ""⟩] := rfl
+example : buildTable (o2 false true) [⟨"a", 1, "", ""⟩, ⟨"b", 0, "", ""⟩] = .ok ⟨[("a", 1)], ["a", "b"]⟩ := rfl
+example : ∃ o p, runSplit ⟨true, true, none, true⟩ ⟨false, true, false⟩ "a\tH1\nb\tnone\n".toList
+    [⟨"a", 3⟩, ⟨"c", 4⟩, ⟨"b", 3⟩] = .ok (o, p) ∧ written p 1 = [0] ∧ written p 0 = [2] := ⟨_, _, rfl, rfl, rfl⟩
+/-- a leading blank before `#` makes the first line data (`readline().startswith("#")` is not stripped): the 2-column
+parser then meets the haplotype name `haplotype` → `KeyError` -/
+example : parseText (o2 false false) " #name\thaplotype\na\tH1\n".toList = .error .keyError := rfl
+/-- `strip()` eats a trailing empty column: a 4-column line with an empty chromosome has 3 columns → `ValueError` -/
+example : parseText (o2 false false) "a\tH1\t7\tchr1\nb\tH2\t7\t\n".toList = .error .valueError := rfl
+/-- a blank line has the single column `""`: `IndexError` in a 2-column list -/
+example : parseText (o2 false false) "a\tH1\n\nb\tH2\n".toList = .error .indexError := rfl
+/-- `\r\n` and a missing final newline are fine -/
+example : parseText (o2 false false) "a\tH1\r\nb\tH2".toList = .ok [⟨"a", 1, "", ""⟩, ⟨"b", 2, "", ""⟩] := rfl
+/-- largest block keyed by (chromosome, phase set): phase set 7 has 2 lines on chr1 and 1 on chr2, phase set 9 has 2 on
+chr2 — chr2 selects 9, not 7 -/
+example : selectedBlocks [⟨"a", 1, "7", "chr1"⟩, ⟨"b", 1, "7", "chr1"⟩, ⟨"c", 2, "7", "chr2"⟩, ⟨"d", 1, "9", "chr2"⟩,
+    ⟨"e", 2, "9", "chr2"⟩] = [("chr1", "7"), ("chr2", "9")] := rfl
+/-- only `--output-untagged`: refused by `validate` (the condition reads "is not None"); no output option at all: `len(None)` -/
+example : (resolveOutputs ⟨false, false, none, true⟩, resolveOutputs ⟨false, false, none, false⟩) =
+    (.error .usage, .error .typeError) := rfl
+example : bamLen 0 [(5, 2), (0, 3), (2, 4), (4, 2)] = 5 := rfl
 
 end WhVerif.Props.C14
